@@ -301,6 +301,20 @@ def run(ctx):
                 fams.add(fam)
     ctx.check(fams == {"v4", "v6"} and len(inserts) + len(extends) == 2, "C12.4", "Hosts::merge", "self.vN.insert(name, address) for every entry of other.vN (later wins)",
               "Hosts::merge inserts %s / extends %s" % ([[A.path_str(x) for x in hmr.call_expr(t, b)[2]] for b, t in inserts], [[A.path_str(x) for x in hmr.call_expr(t, b)[2]] for b, t in extends]), hm.loc())
+    # ... and nothing else rearranges the two maps: no swap / replace / take of a whole map, no removal, no whole-map store
+    # (ORIGIN does not see writes through `&mut`, so these are looked for explicitly)
+    rearr = []
+    for b, t in hm.calls():
+        n_ = t.get("callee") or ""
+        tl = n_.rsplit("::", 1)[-1].split("<")[0]
+        if (n_.startswith("std::mem::") and tl in ("swap", "replace", "take")) or ("HashMap" in n_ and tl in ("clear", "remove", "remove_entry", "retain", "drain", "extract_if")):
+            rearr.append((tl, hm.loc(b)))
+    for fam in ("v4", "v6"):
+        for w in A.field_writes(hm, H + "Hosts", fam):
+            if w[2] == "store":
+                rearr.append(("store to " + fam, hm.loc(w[0])))
+    ctx.check(not rearr, "C12.4", "Hosts::merge:maps-only-inserted-into", "the maps of `self` only receive the entries of `other`",
+              "Hosts::merge also does %s (which side wins no longer follows from the insert direction)" % [x for x, _ in rearr], rearr[0][1] if rearr else hm.loc())
     hd = prog.fn("dns_types::hosts::deserialise::<impl dns_types::hosts::types::Hosts>::deserialise") if "dns_types::hosts::deserialise::<impl dns_types::hosts::types::Hosts>::deserialise" in prog.fns else prog.find("Hosts>::deserialise")
     hdr = A.Resolver(hd)
     hdc = A.Conds(hd, hdr)
